@@ -180,3 +180,15 @@ pub fn delta_line_delta_start(text: &str) -> (u32, u32) {
 
     (line_break_count, text.len() as u32 - last_line_break_index)
 }
+
+/// The conversion of `get_semantic_tokens` without the database: parsed literals + page content
+/// to the LSP delta-encoded token stream.
+#[cfg(isographlabs_isograph_verif)]
+pub fn verif_lsp_tokens_of_parsed_literals(
+    parsed_iso_literals: &[(IsoLiteralExtractionResult, TextSource)],
+    page_content: &str,
+) -> Vec<LspSemanticToken> {
+    let absolute_tokens =
+        concatenate_and_absolutize_relative_tokens(parsed_iso_literals.iter(), page_content);
+    convert_absolute_token_to_lsp_token(absolute_tokens, page_content).collect()
+}
